@@ -24,28 +24,37 @@ mod verif_xyb {
         for i in 0..3 { assert!(NEG_OPSIN_ABSORBANCE_BIAS[i] == -OPSIN_ABSORBANCE_BIAS[i], "the inverse uses the negated forward bias"); }
     }
 
-    /// forward: real code vs the libjxl formula written in the same operation order; pixel on the grid k/16 in [-1,4]
+    /// forward: real code vs the libjxl formula written in the same operation order; pixel on the grid k/8 in [-1,4];
+    /// one harness per output component (each depends on all three inputs)
+    fn forward_component(k: usize) {
+        let in_r: i8 = kani::any(); let in_g: i8 = kani::any(); let in_b: i8 = kani::any();
+        kani::assume(in_r >= -8 && in_r <= 32 && in_g >= -8 && in_g <= 32 && in_b >= -8 && in_b <= 32);
+        let p = [(in_r as f32) * 0.125, (in_g as f32) * 0.125, (in_b as f32) * 0.125];
+        let got = crate::Xyb::from(crate::LinearRgb::new(vec![p], 1, 1).unwrap());
+        let a = OPSIN_ABSORBANCE_MATRIX; let bias = OPSIN_ABSORBANCE_BIAS;
+        let lms = |i: usize| -> f32 {
+            let mix = a[3 * i].mul_add(p[0], a[3 * i + 1].mul_add(p[1], a[3 * i + 2].mul_add(p[2], bias[i])));
+            let mix = if mix < 0.0 { 0.0 } else { mix };           // clamp BEFORE the cube root
+            yuvxyb_math::cbrtf(mix) + (-yuvxyb_math::cbrtf(bias[i]))
+        };
+        let e = if k == 0 { 0.5 * (lms(0) - lms(1)) } else if k == 1 { 0.5 * (lms(0) + lms(1)) } else { lms(2) };
+        assert!(got.data()[0][k].to_bits() == e.to_bits(), "XYB pixel == ((L-M)/2, (L+M)/2, S) with (L,M,S) = cbrt(max(0, A*rgb+b)) - cbrt(b)");
+        assert!(got.width() == 1 && got.height() == 1, "dimensions preserved");
+        kani::cover!(in_r < 0 && in_g < 0 && in_b < 0, "negative mix (clamped) explored");
+        kani::cover!(in_r > 16, "bright pixel explored");
+    }
     #[kani::proof]
     #[kani::unwind(5)]
     #[kani::stub(yuvxyb_math::cbrtf::cbrtf, stub_cbrtf)]
-    fn k_xyb_w_forward() {
-        let in_r: i8 = kani::any(); let in_g: i8 = kani::any(); let in_b: i8 = kani::any();
-        kani::assume(in_r >= -16 && in_r <= 64 && in_g >= -16 && in_g <= 64 && in_b >= -16 && in_b <= 64);
-        let p = [(in_r as f32) * 0.0625, (in_g as f32) * 0.0625, (in_b as f32) * 0.0625];
-        let got = crate::Xyb::from(crate::LinearRgb::new(vec![p], 1, 1).unwrap());
-        let a = OPSIN_ABSORBANCE_MATRIX; let bias = OPSIN_ABSORBANCE_BIAS;
-        let mut m = [0.0f32; 3];
-        for i in 0..3 {
-            let mix = a[3 * i].mul_add(p[0], a[3 * i + 1].mul_add(p[1], a[3 * i + 2].mul_add(p[2], bias[i])));
-            let mix = if mix < 0.0 { 0.0 } else { mix };           // clamp BEFORE the cube root
-            m[i] = yuvxyb_math::cbrtf(mix) + (-yuvxyb_math::cbrtf(bias[i]));
-        }
-        let e = [0.5 * (m[0] - m[1]), 0.5 * (m[0] + m[1]), m[2]];
-        for k in 0..3 { assert!(got.data()[0][k].to_bits() == e[k].to_bits(), "XYB pixel == ((L-M)/2, (L+M)/2, S) with (L,M,S) = cbrt(max(0, A*rgb+b)) - cbrt(b)"); }
-        assert!(got.width() == 1 && got.height() == 1, "dimensions preserved");
-        kani::cover!(in_r < 0 && in_g < 0 && in_b < 0, "negative mix (clamped) explored");
-        kani::cover!(in_r > 32, "bright pixel explored");
-    }
+    fn k_xyb_w_forward_x() { forward_component(0) }
+    #[kani::proof]
+    #[kani::unwind(5)]
+    #[kani::stub(yuvxyb_math::cbrtf::cbrtf, stub_cbrtf)]
+    fn k_xyb_w_forward_y() { forward_component(1) }
+    #[kani::proof]
+    #[kani::unwind(5)]
+    #[kani::stub(yuvxyb_math::cbrtf::cbrtf, stub_cbrtf)]
+    fn k_xyb_w_forward_b() { forward_component(2) }
 
     /// inverse: real code vs Inv * ((unmix(q) - cbrt(-b))^3 - b) in the same operation order; XYB on the grid k/64
     #[kani::proof]
@@ -97,7 +106,7 @@ def glue_forward_consts(consts):
     out = []
     for i in range(3):
         q = glue.Query("c04-affine-row%d" % i,
-                       "forall rgb in [-1,4]^3: |(A_f32*rgb + b_f32)_i + e - (A_jxl*rgb + b_jxl)_i| <= 2.5e-7*(|A_jxl*rgb+b_jxl|_i) + 1e-9 with e the standard-model rounding of 3 fused multiply-adds (row %d)" % i)
+                       "forall rgb in [-1,4]^3: |(A_f32*rgb + b_f32)_i - (A_jxl*rgb + b_jxl)_i| <= 1.5e-7*(sum_j |A_jxl,ij|*|rgb_j| + b_jxl): the f32 opsin constants are the libjxl decimals to f32 precision (row %d)" % i)
         v = [q.real("v%d" % j, -1, 4) for j in range(3)]
         # 3 fused mul_adds: each one rounding, relative 2^-24 of its result; results bounded by sum |a_j|*4 + b
         mx = sum(abs(x) for x in A[i]) * 4 + b[i]
@@ -106,7 +115,8 @@ def glue_forward_consts(consts):
         q.define("got", lin(A[i], v, b[i]))
         q.define("want", lin(JXL_A[i], v, JXL_B))
         # coefficient error alone (the rounding part is stated separately as rho)
-        q.add("(> %s (+ (* %s %s) %s))" % (absv("(- got want)"), rat(F(25, 10 ** 8)), absv("want"), rat(F(1, 10 ** 9))))
+        mag = "(+ %s %s)" % (" ".join("(* %s %s)" % (rat(abs(JXL_A[i][j])), absv(v[j])) for j in range(3)), rat(JXL_B))
+        q.add("(> %s (* %s %s))" % (absv("(- got want)"), rat(F(15, 10 ** 8)), mag))
         r = q.run(cross=True)
         if r["status"] == "sat":
             r["replay"] = _model_replay(ctx_holder.get("ctx"), r, "fwd", ("v0", "v1", "v2"))
@@ -169,7 +179,7 @@ def replay_xyb(ctx, spec, f):
     if spec["dir"] == "fwd":
         if any(k not in ins for k in ("in_r", "in_g", "in_b")):
             return {"reproduced": None, "detail": "inputs not found"}
-        px = [ins["in_r"] / 16.0, ins["in_g"] / 16.0, ins["in_b"] / 16.0]
+        px = [ins["in_r"] / 8.0, ins["in_g"] / 8.0, ins["in_b"] / 8.0]
         tries = [px, [-1.0, -1.0, -1.0], [1.0, 0.0, -1.0], [0.5, 0.25, 0.75], [4.0, 4.0, 4.0], [0.0, 0.0, 0.0]]
         last = None
         for p in tries:
